@@ -90,13 +90,15 @@ SpendableConsistent(o) == \A a \in DOMAIN o.spend : \A d \in Denoms : o.spend[a]
 
 ------------------------------------------------------------------------------
 (* C17: the enterprise supply queries (o.q is recorded at block boundaries) *)
-LockedOf(o, d) == IF d = o.ent.p.denom THEN o.ent.totLocked ELSE 0
+\* the eFUND that is really locked: the per-account records (the module's running total is a derived figure, C04)
+LockedTotal(o) == SumFn(o.ent.locked) + o.ent.extraLocked
+LockedOf(o, d) == IF d = o.ent.p.denom THEN LockedTotal(o) ELSE 0
 SupplyOfOk(o) == \A d \in Denoms : o.q.supplyOf[d] = o.supply[d] - LockedOf(o, d)
 StakeSupplyUnchanged(o) == o.q.supplyOfStake = o.q.bankStake
 EntSupplyOk(o) ==
   LET e == o.q.entSupply IN
   /\ e.denom = o.ent.p.denom
-  /\ e.total = o.supply[e.denom] /\ e.locked = o.ent.totLocked /\ e.unlocked = e.total - e.locked
+  /\ e.total = o.supply[e.denom] /\ e.locked = LockedTotal(o) /\ e.unlocked = e.total - e.locked
   /\ e.unlocked >= 0 /\ e.locked >= 0
   /\ o.q.totalUnlocked.amt = e.unlocked
 PageOk(o, pg) ==
@@ -109,7 +111,14 @@ PagesOk(o) == \A k \in DOMAIN o.q.pages : PageOk(o, o.q.pages[k])
 ------------------------------------------------------------------------------
 (* C07 / C08 / C09 on the registries *)
 ChCommon(s, t, k) == 1..Min(Len(s[k].ch), Len(t[k].ch))
-RecByKey(recs, h) == LET i == CHOOSE j \in DOMAIN recs : recs[j].h = h IN recs[i]
+\* records are kept in ascending key order: binary search (a registration can hold tens of thousands of records)
+RECURSIVE KeyIdx(_, _, _, _)
+KeyIdx(recs, h, lo, hi) ==
+  IF lo >= hi THEN lo
+  ELSE LET mid == (lo + hi) \div 2 IN
+       IF recs[mid].h < h THEN KeyIdx(recs, h, mid + 1, hi) ELSE KeyIdx(recs, h, lo, mid)
+RecByKey(recs, h) == LET i == KeyIdx(recs, h, 1, Len(recs)) IN
+                     IF recs[i].h = h THEN recs[i] ELSE recs[CHOOSE j \in DOMAIN recs : recs[j].h = h]
 \* no later transaction alters or replaces a record that is still in state
 NoRewrite(s, t) == \A k \in {"wrk", "bcn"} : \A i \in ChCommon(s, t, k) :
    \A h \in Keys(s[k].ch[i].recs) \cap Keys(t[k].ch[i].recs) :
